@@ -155,4 +155,13 @@ def writes(fn: ast.FunctionDef) -> List[Effect]:
                     add("mutcall", n, base)
             elif isinstance(f, ast.Name) and f.id in ("setattr", "delattr"):
                 add("mutcall", n, n.args[0] if n.args else f)
+            # library calls told to work in place: scipy's overwrite_a / overwrite_b / overwrite_x=True, numpy's out=<array>, copy=False views
+            # that are then written are not followed -- only the explicit permissions
+            for k in n.keywords:
+                if k.arg and k.arg.startswith("overwrite_") and not (isinstance(k.value, ast.Constant) and k.value.value is False) and n.args:
+                    a0 = n.args[0]
+                    if isinstance(a0, (ast.Name, ast.Attribute, ast.Subscript)) and not _is_fresh_expr(a0, fresh):
+                        add("mutcall", n, a0)
+                if k.arg == "out" and isinstance(k.value, (ast.Name, ast.Attribute, ast.Subscript)) and not (isinstance(k.value, ast.Name) and k.value.id in fresh):
+                    add("mutcall", n, k.value)
     return out
